@@ -137,3 +137,135 @@ Theorem C17_wt_rejects_former_unsound :
                         [(5, lit8 2); (5, Ex ETrue m0 TBool)] 9) = false.
 Proof. vm_compute. repeat split; reflexivity. Qed.
 Print Assumptions C17_wt_rejects_former_unsound.
+
+(* ------------------------------------------------------------------ the REAL checker (Check/Infer.v:
+   a function-by-function model of src/check.rs, tied to garble_lang::check on every run: same
+   typed program or both reject).  Unlike the reference rules Wt.v above, these theorems are about
+   the algorithm the code runs (inference of unsuffixed literals, unify / constrain_type, Env). *)
+From GV Require Import Front.Scan Front.ParseExpr Check.UAst Check.Infer Check.InferExamples Check.InferProofs.
+
+(* SCOPING: checking an expression leaves the environment exactly as it was - whatever a block, a
+   branch, a match arm, a loop body or a called function binds (or shadows, or declares mutable) is
+   gone afterwards; statements only change the innermost scope; a function check restores the
+   caller's environment. *)
+Theorem C17_checker_scoping : forall intern f D,
+  (forall st e r, check_expr intern f D st e = COk r -> st_env (snd r) = st_env st) /\
+  (forall st b r, check_stmts intern f D st b = COk r -> tl (st_env (snd r)) = tl (st_env st)) /\
+  (forall st b r, check_block intern f D st b = COk r -> tl (st_env (snd r)) = tl (st_env st)) /\
+  (forall st s r, check_stmt intern f D st s = COk r -> tl (st_env (snd r)) = tl (st_env st)) /\
+  (forall st fd r, check_fn intern f D st fd = COk r -> st_env (snd r) = st_env st).
+Proof. exact check_env. Qed.
+Print Assumptions C17_checker_scoping.
+
+Theorem C17_checker_scope_does_not_leak : forall intern f D st e e' st' x,
+  check_expr intern f D st e = COk (e', st') -> env_get (st_env st') x = env_get (st_env st) x.
+Proof. exact scope_does_not_leak. Qed.
+Print Assumptions C17_checker_scope_does_not_leak.
+
+Theorem C17_checker_for_does_not_leak : forall intern f D st p e body s' st',
+  check_stmt intern f D st (XSForEach p e body) = COk (s', st') -> st_env st' = st_env st.
+Proof. exact for_does_not_leak. Qed.
+Print Assumptions C17_checker_for_does_not_leak.
+
+Theorem C17_checker_unbound_after_block : forall intern f f' D st b e' st' x,
+  check_expr intern f D st (XBlock b) = COk (e', st') ->
+  env_get (st_env st) x = None -> assocL x (d_consts D) = None ->
+  check_expr intern (S f') D st' (XIdentifier x) = CErr E_UnknownIdentifier.
+Proof. exact unbound_after_block. Qed.
+Print Assumptions C17_checker_unbound_after_block.
+
+(* the local rules (in every state in which the sub-expressions are accepted) *)
+Theorem C17_checker_rejects_non_bool_condition : forall intern f D st c a b c1 st1,
+  check_expr intern f D st c = COk (c1, st1) -> ty_of c1 <> CBool ->
+  is_ok (check_expr intern (S f) D st (XIf c a b)) = false.
+Proof. exact if_cond_not_bool_rejected. Qed.
+Print Assumptions C17_checker_rejects_non_bool_condition.
+
+Theorem C17_checker_rejects_operand_mismatch : forall intern f D st op x y x1 st1 y1 st2,
+  uses_unify op = true ->
+  check_expr intern f D st x = COk (x1, st1) -> check_expr intern f D st1 y = COk (y1, st2) ->
+  unify_compat (ty_of x1) (ty_of y1) = false ->
+  check_expr intern (S f) D st (XOp op x y) = CErr E_TypeMismatch.
+Proof. exact operands_differ_rejected. Qed.
+Print Assumptions C17_checker_rejects_operand_mismatch.
+
+Theorem C17_checker_rejects_assignment_to_immutable : forall intern f D st x accs v t,
+  env_get (st_env st) x = Some (t, false) ->
+  check_stmt intern (S f) D st (XSVarAssign x accs v) = CErr E_IdentifierNotDeclaredAsMutable.
+Proof. exact assign_immutable_rejected. Qed.
+Print Assumptions C17_checker_rejects_assignment_to_immutable.
+
+Theorem C17_checker_rejects_index_not_usize : forall intern f D st a i a1 st1 i1 st2,
+  check_expr intern f D st a = COk (a1, st1) -> check_expr intern f D st1 i = COk (i1, st2) ->
+  ty_of i1 <> CUnsigned Usize -> ty_of i1 <> CUnsigned UnspecifiedU ->
+  is_ok (check_expr intern (S f) D st (XArrayAccess a i)) = false.
+Proof. exact index_not_usize_rejected. Qed.
+Print Assumptions C17_checker_rejects_index_not_usize.
+
+(* the checker is NOT sound for the reference rules (the recorded re-typing defect of unsuffixed
+   literals, known finding of C05): four accepted programs whose typed tree Wt.v rejects *)
+Theorem C17_checker_soundness_refuted :
+  forall P, In P [P_retype; P_retype2; P_retype3; P_big] ->
+  exists P', check_program ex_intern 50 P = COk P' /\ Wt.wt_program P' = false.
+Proof. exact check_sound_refuted. Qed.
+Print Assumptions C17_checker_soundness_refuted.
+
+(* ---- lifting to EVERY syntactic context (Check/InferSub.v): an accepted program has accepted every
+   expression and statement of every function (in some state of the checker); hence a node that can
+   never be accepted makes the whole program rejected wherever it occurs - in nested blocks, branches,
+   match arms, loop bodies, call arguments, accessor indices, callees. *)
+From GV Require Import Check.InferSub.
+
+Theorem C17_checker_accepted_means_every_node_accepted : forall intern fuel P T,
+  NoDup (map uf_name (up_fns P)) ->
+  check_program_t intern fuel P = COk T ->
+  exists D, d_fns D = up_fns P /\ forall n, occurs n P -> acc intern D n.
+Proof. exact accepted_all_nodes. Qed.
+Print Assumptions C17_checker_accepted_means_every_node_accepted.
+
+Theorem C17_checker_rejects_program_with_unacceptable_node : forall intern fuel P n,
+  NoDup (map uf_name (up_fns P)) -> occurs n P ->
+  (forall D, d_fns D = up_fns P -> never_ok intern D n) ->
+  is_ok (check_program_t intern fuel P) = false /\ is_ok (check_program intern fuel P) = false.
+Proof. exact node_never_ok_program_rejected. Qed.
+Print Assumptions C17_checker_rejects_program_with_unacceptable_node.
+
+Theorem C17_checker_rejects_non_bool_condition_anywhere : forall intern fuel P c a b,
+  NoDup (map uf_name (up_fns P)) -> occurs (NE (XIf c a b)) P ->
+  (forall D, d_fns D = up_fns P -> always_ty intern D c (fun t => t <> CBool)) ->
+  is_ok (check_program intern fuel P) = false.
+Proof. exact if_cond_never_bool_rejected. Qed.
+Print Assumptions C17_checker_rejects_non_bool_condition_anywhere.
+
+Theorem C17_checker_rejects_operand_mismatch_anywhere : forall intern fuel P op x y (bx by_ : cty -> Prop),
+  NoDup (map uf_name (up_fns P)) -> occurs (NE (XOp op x y)) P -> uses_unify op = true ->
+  (forall D, d_fns D = up_fns P -> always_ty intern D x bx /\ always_ty intern D y by_) ->
+  (forall t1 t2, bx t1 -> by_ t2 -> unify_compat t1 t2 = false) ->
+  is_ok (check_program intern fuel P) = false.
+Proof. exact operands_never_unify_rejected. Qed.
+Print Assumptions C17_checker_rejects_operand_mismatch_anywhere.
+
+Theorem C17_checker_rejects_non_usize_index_anywhere : forall intern fuel P a i,
+  NoDup (map uf_name (up_fns P)) -> occurs (NE (XArrayAccess a i)) P ->
+  (forall D, d_fns D = up_fns P -> always_ty intern D i (fun t => t <> CUnsigned Usize /\ t <> CUnsigned UnspecifiedU)) ->
+  is_ok (check_program intern fuel P) = false.
+Proof. exact index_never_usize_rejected. Qed.
+Print Assumptions C17_checker_rejects_non_usize_index_anywhere.
+
+(* purely syntactic instances: `if <number> ..`, `-true`, `-<unsigned literal>`, `a[true]`, a unifying
+   operator on a Boolean and a number literal, `x << true`, anywhere in the program *)
+Theorem C17_checker_rejects_literal_type_errors_anywhere : forall intern fuel P n,
+  NoDup (map uf_name (up_fns P)) -> occurs n P -> bad_node n = true ->
+  is_ok (check_program_t intern fuel P) = false /\ is_ok (check_program intern fuel P) = false.
+Proof. exact contains_bad_node_rejected. Qed.
+Print Assumptions C17_checker_rejects_literal_type_errors_anywhere.
+
+(* ---- soundness for the reference rules, partial (Check/InferSound.v): on typed trees without
+   Unspecified types the inference machinery is the identity, and accepted expressions / blocks of a
+   small fragment are well typed in the sense of Wt.v *)
+From GV Require Import Check.InferSound.
+
+Theorem C17_checker_check_type_is_identity_on_concrete_trees_partial : forall f e t e',
+  check_type f e t = COk e' -> conc_e e = true -> e' = e /\ ty_of e = t.
+Proof. exact check_type_conc. Qed.
+Print Assumptions C17_checker_check_type_is_identity_on_concrete_trees_partial.
